@@ -746,6 +746,12 @@ impl Model {
                     n.scope,
                     if inv_now { " (the left-hand side of its bind changed in this stabilise)" } else { "" }
                 );
+                if inv_now {
+                    // the same event seen from C02: a closure holding the previous left-hand value ran
+                    // on the new values of its other inputs, i.e. on a combination of old and new
+                    let m2 = format!("round {r}: function of node #{t} ({:?}), created by the previous run of bind {:?} and capturing its old input, ran in the stabilise in which that input changed: it saw a transient combination of old and new values", n.kind, n.scope);
+                    self.fail("C02", "stale-closure-saw-new-inputs", m2);
+                }
                 self.fail("C03", "invalid-node-ran", m);
             }
         }
@@ -928,16 +934,23 @@ impl Model {
                     (Cache::Known(o), MKind::MapRef(k)) => Some(proj(*k, o).clone()),
                     _ => None,
                 };
-                match (exact, old_p, new) {
+                match (exact, old_p.clone(), new) {
                     (true, Some(o), Some(v)) => Tri::of(!n.cutoff.suppresses(&o, v)),
                     _ => {
                         self.info.mapref_gap += 1;
                         // the node was not linked while its input changed: a correct engine
                         // cannot compare projections; it must propagate if they differ
+                        // (where cutoffs may suppress unequal values the input's stored value
+                        // can have moved silently while this node was unlinked; the engine then
+                        // compares with the projection of that stored value, as it would have
+                        // done had the node stayed linked: no requirement if those are equal)
+                        let silent_move_explains = self.weird && !matches!(&old_p, Some(op) if Some(op) != new);
                         match (&n.cache, new) {
                             (Cache::Known(o), Some(v)) if n.cutoff.eq_only() => {
-                                if n.cutoff == CutKind::Never || o != v {
+                                if n.cutoff == CutKind::Never || (o != v && !silent_move_explains) {
                                     Tri::Yes
+                                } else if o != v {
+                                    Tri::Maybe
                                 } else {
                                     self.info.mapref_same_proj += 1;
                                     Tri::Maybe
